@@ -122,33 +122,52 @@ pub fn siqs(
     // To avoid wasting CPU on very small inputs, completion is checked after
     // each polynomial to terminate the loop early.
 
+    #[cfg(yamaquasi_verif)] crate::verif::ev(|| format!("\"op\":\"stage\",\"st\":\"siqs\",\"par\":{},\"tasks\":{},\"fb\":{},\"gap\":{},\"target\":{}", tpool.is_some(), a_ints.len(), fbase.len(), s.gap.load(Ordering::Relaxed), s.target.load(Ordering::Relaxed)));
     if let Some(pool) = tpool.as_ref() {
         pool.install(|| {
             a_ints.par_iter().for_each(|&a_int| {
+                #[cfg(yamaquasi_verif)] crate::verif::sched_point("siqs.task.gap");
+                #[cfg(yamaquasi_verif)] crate::verif::ev(|| format!("\"op\":\"task\",\"st\":\"siqs\",\"u\":\"{}\"", a_int));
                 if s.gap.load(Ordering::Relaxed) == 0 {
+                    #[cfg(yamaquasi_verif)] crate::verif::ev(|| format!("\"op\":\"task_skip\",\"st\":\"siqs\",\"why\":\"gap0\""));
                     return;
                 }
+                #[cfg(yamaquasi_verif)] crate::verif::sched_point("siqs.task.done");
+                #[cfg(yamaquasi_verif)] crate::verif::ev(|| format!("\"op\":\"pre_poll\",\"st\":\"siqs\",\"site\":\"par\""));
                 if s.done.load(Ordering::Relaxed) || prefs.abort() {
+                    #[cfg(yamaquasi_verif)] crate::verif::ev(|| format!("\"op\":\"task_skip\",\"st\":\"siqs\",\"why\":\"done_or_abort\""));
                     return;
                 }
+                #[cfg(yamaquasi_verif)] crate::verif::ev(|| format!("\"op\":\"unit_start\",\"st\":\"siqs\""));
                 sieve_a(&s, &a_int, &factors);
+                #[cfg(yamaquasi_verif)] crate::verif::ev(|| format!("\"op\":\"unit_end\",\"st\":\"siqs\""));
             });
         });
     } else {
         for a_int in a_ints {
+            #[cfg(yamaquasi_verif)] crate::verif::ev(|| format!("\"op\":\"task\",\"st\":\"siqs\",\"u\":\"{}\"", a_int));
+            #[cfg(yamaquasi_verif)] crate::verif::ev(|| format!("\"op\":\"unit_start\",\"st\":\"siqs\""));
             sieve_a(&s, &a_int, &factors);
+            #[cfg(yamaquasi_verif)] crate::verif::ev(|| format!("\"op\":\"unit_end\",\"st\":\"siqs\""));
             if s.gap.load(Ordering::Relaxed) == 0 {
+                #[cfg(yamaquasi_verif)] crate::verif::ev(|| format!("\"op\":\"loop_exit\",\"st\":\"siqs\",\"why\":\"gap0\""));
                 break;
             }
+            #[cfg(yamaquasi_verif)] crate::verif::ev(|| format!("\"op\":\"pre_poll\",\"st\":\"siqs\",\"site\":\"seq\""));
             if s.done.load(Ordering::Relaxed) || prefs.abort() {
+                #[cfg(yamaquasi_verif)] crate::verif::ev(|| format!("\"op\":\"loop_exit\",\"st\":\"siqs\",\"why\":\"done_or_abort\""));
                 break;
             }
         }
     }
+    #[cfg(yamaquasi_verif)] crate::verif::ev(|| format!("\"op\":\"join\",\"st\":\"siqs\",\"gap\":{},\"done\":{},\"target\":{},\"polys\":{}", s.gap.load(Ordering::Relaxed), s.done.load(Ordering::Relaxed), s.target.load(Ordering::Relaxed), s.polys_done.load(Ordering::Relaxed)));
+    #[cfg(yamaquasi_verif)] crate::verif::ev(|| format!("\"op\":\"pre_poll\",\"st\":\"siqs\",\"site\":\"final\""));
     if prefs.abort() {
+        #[cfg(yamaquasi_verif)] crate::verif::ev(|| format!("\"op\":\"sieve_ret\",\"st\":\"siqs\",\"why\":\"abort\""));
         return Ok(vec![]);
     }
     let mut rels = s.rels.into_inner().unwrap();
+    #[cfg(yamaquasi_verif)] crate::verif::ev(|| format!("\"op\":\"final_len\",\"st\":\"siqs\",\"len\":{},\"fb\":{}", rels.len(), fbase.len()));
     // Log final progress
     let pdone = s.polys_done.load(Ordering::Relaxed);
     if prefs.verbose(Verbosity::Info) {
@@ -161,6 +180,7 @@ pub fn siqs(
     if rels.len() > fbase.len() + relations::MIN_KERNEL_SIZE {
         rels.truncate(fbase.len() + relations::MIN_KERNEL_SIZE)
     }
+    #[cfg(yamaquasi_verif)] crate::verif::ev(|| format!("\"op\":\"finalize\",\"st\":\"siqs\",\"gap\":{},\"len\":{},\"fb\":{}", s.gap.load(Ordering::Relaxed), rels.len(), fbase.len()));
     if s.gap.load(Ordering::Relaxed) != 0 && rels.len() <= fbase.len() {
         panic!("Internal error: not enough smooth numbers with selected parameters (n={n})");
     }
@@ -191,40 +211,55 @@ fn sieve_a(s: &SieveSIQS, a_int: &Uint, factors: &Factors) {
     // Storage for recycled resources.
     let mut recycled = None;
     for idx in 0..polys_per_a {
+        #[cfg(yamaquasi_verif)] crate::verif::sched_point("siqs.poly.done");
         if s.done.load(Ordering::Relaxed) {
             // Interrupt early.
+            #[cfg(yamaquasi_verif)] crate::verif::ev(|| format!("\"op\":\"unit_interrupt\",\"st\":\"siqs\",\"idx\":{}", idx));
             return;
         }
         if idx > 0 {
             pol.next(s, a);
         }
         assert!(pol.idx == idx);
+        #[cfg(yamaquasi_verif)] crate::verif::ev(|| format!("\"op\":\"poly\",\"st\":\"siqs\",\"idx\":{}", idx));
         recycled = Some(siqs_sieve_poly(s, a, &pol, recycled));
         // Check status.
+        #[cfg(yamaquasi_verif)] crate::verif::sched_point("siqs.rlen.lock");
         let rlen = {
             let rels = s.rels.read().unwrap();
+            #[cfg(yamaquasi_verif)] crate::verif::ev(|| format!("\"op\":\"r_len\",\"st\":\"siqs\",\"held\":1,\"v\":{}", rels.len()));
             rels.len()
         };
 
+        #[cfg(yamaquasi_verif)] crate::verif::sched_point("siqs.polys.inc");
         s.polys_done.fetch_add(1, Ordering::SeqCst);
 
+        #[cfg(yamaquasi_verif)] crate::verif::sched_point("siqs.target.load");
         if rlen >= s.target.load(Ordering::Relaxed) {
             // unlikely: are we done yet?
+            #[cfg(yamaquasi_verif)] crate::verif::sched_point("siqs.gap.lock");
             let rgap = {
                 let rels = s.rels.read().unwrap();
+                #[cfg(yamaquasi_verif)] crate::verif::ev(|| format!("\"op\":\"r_gap\",\"st\":\"siqs\",\"held\":1,\"rlen\":{},\"len\":{},\"v\":{}", rlen, rels.len(), rels.gap(s.fbase)));
                 rels.gap(s.fbase)
             };
+            #[cfg(yamaquasi_verif)] if rgap != 0 { crate::verif::sched_point("siqs.gap.store.nz") } else { crate::verif::sched_point("siqs.gap.store.z") };
+            #[cfg(yamaquasi_verif)] crate::verif::ev(|| format!("\"op\":\"st_gap\",\"st\":\"siqs\",\"v\":{}", rgap));
             s.gap.store(rgap, Ordering::Relaxed);
             if rgap == 0 {
                 if s.prefs.verbose(Verbosity::Info) {
                     eprintln!("Found enough relations");
                 }
+                #[cfg(yamaquasi_verif)] crate::verif::sched_point("siqs.done.store");
+                #[cfg(yamaquasi_verif)] crate::verif::ev(|| format!("\"op\":\"st_done\",\"st\":\"siqs\""));
                 s.done.store(true, Ordering::Relaxed);
                 return;
             } else {
                 if s.prefs.verbose(Verbosity::Info) {
                     eprintln!("Need {rgap} additional relations");
                 }
+                #[cfg(yamaquasi_verif)] crate::verif::sched_point("siqs.target.store");
+                #[cfg(yamaquasi_verif)] crate::verif::ev(|| format!("\"op\":\"st_target\",\"st\":\"siqs\",\"v\":{}", rlen + rgap + std::cmp::min(10, s.fbase.len() / 4)));
                 s.target.store(
                     rlen + rgap + std::cmp::min(10, s.fbase.len() / 4),
                     Ordering::SeqCst,
@@ -1430,7 +1465,10 @@ fn sieve_block_poly(s: &SieveSIQS, pol: &Poly, a: &A, st: &mut sieve::Sieve) {
             cyclelen: 1,
         };
         debug_assert!(rel.verify(&n));
+        #[cfg(yamaquasi_verif)] crate::verif::sched_point("siqs.w.lock");
+        #[cfg(yamaquasi_verif)] crate::verif::ev(|| format!("\"op\":\"w_req\",\"st\":\"siqs\""));
         s.rels.write().unwrap().add(rel, pq);
+        #[cfg(yamaquasi_verif)] crate::verif::ev(|| format!("\"op\":\"w_rel\",\"st\":\"siqs\""));
     }
 }
 
@@ -1643,5 +1681,70 @@ fn test_poly_prepare0() {
                 );
             }
         }
+    }
+}
+
+/// Verification accessors (cfg(yamaquasi_verif) only): the crate-private parameter functions and the
+/// private fields/methods of sieving polynomials.
+#[cfg(yamaquasi_verif)]
+pub mod vhook {
+    use super::*;
+
+    pub fn fb_size(n: &Uint, use_double: bool) -> u32 {
+        super::fb_size(n, use_double)
+    }
+    pub fn nfactors(n: &Uint) -> u32 {
+        super::nfactors(n)
+    }
+    pub fn a_value_count(n: &Uint) -> usize {
+        super::a_value_count(n)
+    }
+    pub fn a_tolerance_divisor(n: &Uint) -> usize {
+        super::a_tolerance_divisor(n)
+    }
+    pub fn interval_size(n: &Uint, use_double: bool) -> u32 {
+        super::interval_size(n, use_double)
+    }
+    pub fn large_prime_factor(n: &Uint) -> u64 {
+        super::large_prime_factor(n)
+    }
+    pub fn double_large_factor(n: &Uint) -> u64 {
+        super::double_large_factor(n)
+    }
+
+    /// 1 for Ax^2+2Bx+C, 2 for Ax^2+Bx+C
+    pub fn poly_kind(p: &Poly) -> u8 {
+        if p.kind == PolyType::Type1 {
+            1
+        } else {
+            2
+        }
+    }
+    pub fn poly_idx(p: &Poly) -> usize {
+        p.idx
+    }
+    pub fn poly_abc(p: &Poly) -> (I256, I256, I256) {
+        (p.a, p.b, p.c)
+    }
+    pub fn poly_root(p: &Poly) -> u32 {
+        p.root
+    }
+    pub fn poly_r1p(p: &Poly) -> &[u32] {
+        &p.r1p[..]
+    }
+    pub fn poly_r2p(p: &Poly) -> &[u32] {
+        &p.r2p[..]
+    }
+    pub fn poly_eval(p: &Poly, x: i64) -> (I256, I256) {
+        p.eval(x)
+    }
+    pub fn a_value(a: &A) -> Uint {
+        a.a
+    }
+    pub fn a_factors(a: &A) -> Vec<u64> {
+        a.factors.iter().map(|f| f.p).collect()
+    }
+    pub fn a_factors_idx(a: &A) -> Vec<usize> {
+        a.factors_idx.to_vec()
     }
 }
